@@ -8,6 +8,12 @@
 (* real [size, flops, mult] (figures of the tree after really removing the *)
 (* returned indices), after (set: sliced indices of tree.slice(...)'s      *)
 (* result, or {-1} if not run)]                                            *)
+(* kind = "finder" (above) | "slice": a call of tree.slice(...) judged by  *)
+(* its postcondition alone: [net, ch, sl0, forbidden, tsize, tslices,      *)
+(* tover, reslice, after]; the requested targets must hold on the tree     *)
+(* returned, relative to the tree the search started from (the unsliced    *)
+(* one when reslice is set, and then the slice target counts on top of the *)
+(* slices already there).                                                  *)
 (* Verdict <<"V", c, clause, detail>>.                                     *)
 (***************************************************************************)
 EXTENDS Data, TreeDefs
@@ -34,6 +40,20 @@ Clause(k) ==
     ELSE IF ~OverOKN(r, f0, k.tover) THEN <<"target-overhead-not-honoured", r.nslices * r.flops>>
     ELSE IF k.after # {-1} /\ k.after # k.sl0 \cup r.X THEN <<"slice-result-has-other-sliced-set", 0>>
     ELSE <<"ok", 0>>
+SliceClause(k) ==
+    LET ch   == ChOf(k)
+        base == IF k.reslice THEN {} ELSE k.sl0
+        X    == k.after \ base
+        d    == CostOfN(k.net, ch, base, X)
+        f0   == FlopsOne(k.net, ch, base)
+        want == IF k.reslice THEN k.tslices * Prod(k.net, k.sl0) ELSE k.tslices
+    IN
+    IF ~k.reslice /\ ~(k.sl0 \subseteq k.after) THEN <<"lost-sliced-index", 0>>
+    ELSE IF X \cap k.forbidden # {} THEN <<"forbidden-index-chosen", 0>>
+    ELSE IF k.tsize # 0 /\ d.size > k.tsize THEN <<"target-size-not-honoured", d.size>>
+    ELSE IF k.tslices # 0 /\ d.nslices < want THEN <<"target-slices-not-honoured", d.nslices>>
+    ELSE IF ~OverOKN(d, f0, k.tover) THEN <<"target-overhead-not-honoured", d.nslices * d.flops>>
+    ELSE <<"ok", 0>>
 Init == c = 1
-Next == c <= Len(Cases) /\ LET v == Clause(Cases[c]) IN PrintT(<<"V", c, v[1], v[2]>>) /\ c' = c + 1
+Next == c <= Len(Cases) /\ LET v == IF Cases[c].kind = "slice" THEN SliceClause(Cases[c]) ELSE Clause(Cases[c]) IN PrintT(<<"V", c, v[1], v[2]>>) /\ c' = c + 1
 =============================================================================
